@@ -458,3 +458,525 @@ Proof.
   - intros q k key Hq. destruct (Hback _ _ _ _ Hq) as [st [Hst E]]. destruct st; try discriminate.
     destruct (HB _ _ _ Hst) as [q' [st' [Hlt Hq']]]. exists q', (settle v st'). split; [exact Hlt|]. apply Hcell. exact Hq'.
 Qed.
+
+(* ---------- every critical section preserves the invariant and raises no exception ---------- *)
+Lemma apply_CInv o c c' rv flt : CInv c -> apply o c = (c', rv, flt) -> CInv c' /\ flt = false.
+Proof.
+  intros HI Ha. destruct o; cbn [apply] in Ha.
+  - inversion Ha; subst. split; [apply CInv_get; exact HI|reflexivity].
+  - destruct (afind key (pend c k)) as [q|] eqn:Hf.
+    + destruct (set_no_fault c k key q v HI Hf) as [h1 Hs]. rewrite Hs in Ha. inversion Ha; subst.
+      split; [eapply CInv_set; eauto|reflexivity].
+    + inversion Ha; subst. auto.
+  - destruct (CInv_fulfill c v HI) as [u0 [h0 [u1 [h1 [Hf0 [Hf1 [HI' _]]]]]]].
+    rewrite Hf0, Hf1 in Ha. inversion Ha; subst. auto.
+  - inversion Ha; subst. auto.
+  - inversion Ha; subst. auto.
+  - inversion Ha; subst. split; [apply CInv_finished; exact HI|reflexivity].
+  - inversion Ha; subst. auto.
+  - inversion Ha; subst. auto.
+Qed.
+
+(* ... and only ever moves promise cells forward (Unset -> SetV v | Broken, then final) *)
+Lemma fulfill_hle v : forall es u h u' h', fulfill es v u h = Some (u', h') -> hle h h'.
+Proof.
+  induction es as [|[key q] r IH]; intros u h u' h' H; cbn in H.
+  - inversion H; subst. apply hle_refl.
+  - destruct (set_value q v h) as [h1|] eqn:Hs; [|discriminate].
+    eapply hle_trans; [eapply hle_set_value; eauto|].
+    eapply hle_trans; [apply hle_drop_opt|]. eapply IH; eauto.
+Qed.
+Lemma apply_hle o c c' rv flt : apply o c = (c', rv, flt) -> hle (heap c) (heap c').
+Proof.
+  intros Ha. destruct o; cbn [apply] in Ha.
+  - inversion Ha; subst. cbn [heap]. eapply hle_trans; [apply hle_app|apply hle_drop_opt].
+  - destruct (afind key (pend c k)) as [q|]; [|inversion Ha; subst; apply hle_refl].
+    destruct (set_value q v (heap c)) as [h1|] eqn:Hs; [|inversion Ha; subst; apply hle_refl].
+    inversion Ha; subst. cbn [heap]. eapply hle_trans; [eapply hle_set_value; eauto|apply hle_drop_opt].
+  - destruct (fulfill (pend c false) v (used c false) (heap c)) as [[u0 h0]|] eqn:H0; [|inversion Ha; subst; apply hle_refl].
+    destruct (fulfill (pend c true) v (used c true) h0) as [[u1 h1]|] eqn:H1; [|inversion Ha; subst; apply hle_refl].
+    inversion Ha; subst. cbn [heap]. eapply hle_trans; eapply fulfill_hle; eauto.
+  - inversion Ha; subst. apply hle_refl.
+  - inversion Ha; subst. apply hle_refl.
+  - inversion Ha; subst. cbn [heap]. apply hle_drop_opt.
+  - inversion Ha; subst. apply hle_refl.
+  - inversion Ha; subst. apply hle_refl.
+Qed.
+
+(* ---------- what each method does to the promises (C18: which value a future gets) ---------- *)
+(* setDelayedValue on a key that is pending satisfies exactly that key's promise with v *)
+Lemma apply_set_pending c mv k key v q : CInv c -> afind key (pend c k) = Some q ->
+  exists c', apply (SetValue mv k key v) c = (c', 0, false) /\
+    nth_error (heap c) q = Some (Cell k key Unset) /\
+    nth_error (heap c') q = Some (Cell k key (SetV v)) /\
+    (forall q', q' <> q -> nth_error (heap c') q' = nth_error (heap c) q').
+Proof.
+  intros HI Hf. destruct (set_no_fault c k key q v HI Hf) as [h1 Hs].
+  cbn [apply]. rewrite Hf, Hs. eexists. split; [reflexivity|]. cbn [heap].
+  rewrite (drop_used_id c k key h1 HI (hle_set_value _ _ _ _ Hs)).
+  destruct (set_value_spec _ _ _ _ Hs) as [k0 [key0 [E [E' [_ Ho]]]]].
+  pose proof (C_pend _ HI _ _ _ (afind_In _ _ _ Hf)) as Hq. rewrite Hq in E. inversion E; subst. auto.
+Qed.
+(* ... and on a key that is unknown or already completed it changes nothing at all *)
+Lemma apply_set_noop c mv k key v : afind key (pend c k) = None -> apply (SetValue mv k key v) c = (c, 0, false).
+Proof. intros Hf. cbn [apply]. rewrite Hf. reflexivity. Qed.
+(* fulfillAllPromises satisfies every unsatisfied promise with v and touches no other *)
+Lemma apply_fulfill c v : CInv c ->
+  exists c', apply (FulfillAll v) c = (c', 0, false) /\ length (heap c') = length (heap c) /\
+    (forall k, pend c' k = []) /\
+    (forall q k key st, nth_error (heap c) q = Some (Cell k key st) ->
+       nth_error (heap c') q = Some (Cell k key (settle v st))).
+Proof.
+  intros HI. destruct (CInv_fulfill c v HI) as [u0 [h0 [u1 [h1 [Hf0 [Hf1 [_ [Hl [Hc _]]]]]]]]].
+  cbn [apply]. rewrite Hf0, Hf1. eexists. split; [reflexivity|]. cbn [heap pend]. auto.
+Qed.
+
+(* ---------- destruction ---------- *)
+Lemma set_all_spec k v : forall es h,
+  (forall key q, In (key, q) es -> nth_error h q = Some (Cell k key Unset)) -> NoDup (keys es) ->
+  exists h', set_all es v h = Some h' /\ length h' = length h /\
+    (forall key q, In (key, q) es -> nth_error h' q = Some (Cell k key (SetV v))) /\
+    (forall q, (forall key, ~ In (key, q) es) -> nth_error h' q = nth_error h q).
+Proof.
+  induction es as [|[key q] r IH]; intros h Hes Hnd.
+  - exists h. cbn. repeat split; auto; intros; contradiction.
+  - inversion Hnd as [|? ? Hk Hr]; subst.
+    pose proof (Hes key q (or_introl eq_refl)) as Hq.
+    destruct (set_value_ok q v h k key Hq) as [h1 Hs]. cbn [set_all]. rewrite Hs.
+    destruct (set_value_spec _ _ _ _ Hs) as [k0 [key0 [E [E' [Hlen Ho]]]]].
+    rewrite Hq in E. inversion E; subst k0 key0. clear E.
+    assert (Hnotin : forall key', ~ In (key', q) r).
+    { intros key' Hin. pose proof (Hes key' q (or_intror Hin)) as E2. rewrite Hq in E2. inversion E2; subst.
+      apply Hk. eapply In_keys; eauto. }
+    destruct (IH h1) as [h' [Hf [Hlen' [Hset Hoth]]]].
+    + intros key' q' Hin. rewrite Ho; [apply Hes; right; exact Hin|]. intros ->. eapply Hnotin; eauto.
+    + exact Hr.
+    + exists h'. split; [exact Hf|]. split; [lia|]. split.
+      * intros key' q' [Hin|Hin]; [|apply Hset; exact Hin].
+        inversion Hin; subst. rewrite Hoth by exact Hnotin. exact E'.
+      * intros q' Hq'. rewrite Hoth; [apply Ho|].
+        -- intros ->. apply (Hq' key). left; reflexivity.
+        -- intros key' Hin. apply (Hq' key'). right; exact Hin.
+Qed.
+Lemma drop_all_id qs : forall h, (forall q k key, nth_error h q <> Some (Cell k key Unset)) -> drop_all qs h = h.
+Proof.
+  induction qs as [|q r IH]; intros h H; cbn; [reflexivity|].
+  rewrite drop_id by (intros; apply H). apply IH. exact H.
+Qed.
+
+(* ~DelayedObjects never throws; every promise that is still unsatisfied gets X{} = 0, nothing else changes *)
+Lemma destroy_spec c : CInv c ->
+  exists h', destroy c = Some h' /\ length h' = length (heap c) /\
+    (forall q k key st, nth_error (heap c) q = Some (Cell k key st) ->
+       nth_error h' q = Some (Cell k key (settle 0 st))).
+Proof.
+  intros HI. pose proof HI as [HP HUS HU HPN HUN HB].
+  destruct (set_all_spec false 0 (pend c false) (heap c)) as [h1 [Hf1 [Hl1 [Hs1 Ho1]]]]; auto.
+  destruct (set_all_spec true 0 (pend c true) h1) as [h2 [Hf2 [Hl2 [Hs2 Ho2]]]]; auto.
+  { intros key q Hin. rewrite Ho1; [auto|]. intros key' Hin'. pose proof (HP _ _ _ Hin). pose proof (HP _ _ _ Hin'). congruence. }
+  assert (Hcell : forall q k key st, nth_error (heap c) q = Some (Cell k key st) ->
+            nth_error h2 q = Some (Cell k key (settle 0 st))).
+  { intros q k key st Hq. destruct st; cbn [settle].
+    - pose proof (HUS _ _ _ Hq) as Hin. destruct k.
+      + apply Hs2. exact Hin.
+      + rewrite Ho2; [apply Hs1; exact Hin|]. intros key' Hin'. pose proof (HP _ _ _ Hin'). congruence.
+    - rewrite Ho2, Ho1; [exact Hq| |]; intros key' Hin'; pose proof (HP _ _ _ Hin'); congruence.
+    - rewrite Ho2, Ho1; [exact Hq| |]; intros key' Hin'; pose proof (HP _ _ _ Hin'); congruence. }
+  unfold destroy. rewrite Hf1, Hf2. eexists. split; [reflexivity|].
+  rewrite drop_all_id.
+  - split; [lia|exact Hcell].
+  - intros q k key Hq. destruct (nth_error (heap c) q) as [[k0 key0 st0]|] eqn:E.
+    + rewrite (Hcell _ _ _ _ E) in Hq. destruct st0; discriminate.
+    + apply nth_error_None in E. assert (q < length h2)%nat by (apply nth_error_Some; congruence). lia.
+Qed.
+
+(* ---------- the abstract life cycle of a key (do_queries) ---------- *)
+(* (in pending map, in used map): Unknown = (f,f), Pending = (t,f), Completed = (f,t);
+   (t,t) arises only when a completed key is requested again before finishedWithValue *)
+Definition abs (c : cont) (k : bool) (key : Z) : bool * bool := (ahas key (pend c k), ahas key (used c k)).
+Definition same (k : bool) (key : Z) (k' : bool) (key' : Z) : bool := Bool.eqb k' k && (key' =? key).
+(* the sequential specification on life-cycle states: what operation o does to key (k',key') *)
+Definition abs_step (o : op) (k' : bool) (key' : Z) (a : bool * bool) : bool * bool :=
+  match o with
+  | GetFuture k key _ => if same k key k' key' then (true, snd a) else a
+  | SetValue _ k key _ => if same k key k' key' then (if fst a then (false, true) else a) else a
+  | FulfillAll _ => (false, fst a || snd a)
+  | Finished k key => if same k key k' key' then (fst a, false) else a
+  | _ => a
+  end.
+Definition abs_ret (o : op) (c : cont) : Z :=
+  match o with
+  | IsRecognized k key => b2z (fst (abs c k key) || snd (abs c k key))
+  | IsCompleted k key => b2z (snd (abs c k key))
+  | _ => 0
+  end.
+
+Lemma ahas_setf_pend f k m k' key' : ahas key' (setf f k m k') = if Bool.eqb k' k then ahas key' m else ahas key' (f k').
+Proof. unfold setf. destruct (Bool.eqb k' k); reflexivity. Qed.
+
+Lemma apply_abs o c c' rv flt k' key' : CInv c -> apply o c = (c', rv, flt) ->
+  abs c' k' key' = abs_step o k' key' (abs c k' key') /\ rv = abs_ret o c.
+Proof.
+  intros HI Ha. unfold abs, abs_step, abs_ret, same. destruct o; cbn [apply] in Ha.
+  - inversion Ha; subst. cbn [pend used fst snd]. split; [|reflexivity].
+    rewrite ahas_setf_pend, ahas_aput. destruct (Bool.eqb_spec k' k) as [->|Hk]; cbn; [|reflexivity].
+    destruct (key' =? key); reflexivity.
+  - destruct (afind key (pend c k)) as [q|] eqn:Hf.
+    + destruct (set_no_fault c k key q v HI Hf) as [h1 Hs]. rewrite Hs in Ha. inversion Ha; subst.
+      cbn [pend used fst snd]. split; [|reflexivity].
+      rewrite !ahas_setf_pend, ahas_adel, ahas_aput.
+      destruct (Bool.eqb_spec k' k) as [->|Hk]; cbn; [|reflexivity].
+      destruct (Z.eqb_spec key' key) as [->|Hne]; cbn; [|reflexivity].
+      assert (ahas key (pend c k) = true) as Hh by (unfold ahas; rewrite Hf; reflexivity).
+      rewrite Hh. reflexivity.
+    + inversion Ha; subst. split; [|reflexivity].
+      destruct (Bool.eqb_spec k' k) as [->|Hk]; cbn; [|reflexivity].
+      destruct (Z.eqb_spec key' key) as [->|Hne]; cbn; [|reflexivity].
+      assert (ahas key (pend c' k) = false) as Hh by (unfold ahas; rewrite Hf; reflexivity).
+      rewrite Hh. reflexivity.
+  - destruct (CInv_fulfill c v HI) as [u0 [h0 [u1 [h1 [Hf0 [Hf1 [_ [_ [_ [Hh0 Hh1]]]]]]]]]].
+    rewrite Hf0, Hf1 in Ha. inversion Ha; subst. cbn [pend used fst snd]. split; [|reflexivity].
+    destruct k'; [rewrite Hh1|rewrite Hh0]; reflexivity.
+  - inversion Ha; subst. auto.
+  - inversion Ha; subst. auto.
+  - inversion Ha; subst. cbn [pend used fst snd]. split; [|reflexivity].
+    rewrite ahas_setf_pend, ahas_adel. destruct (Bool.eqb_spec k' k) as [->|Hk]; cbn; [|reflexivity].
+    destruct (key' =? key); reflexivity.
+  - inversion Ha; subst. auto.
+  - inversion Ha; subst. auto.
+Qed.
+
+(* the life cycle and the promise: Pending <-> the key's latest promise is unsatisfied; Completed -> satisfied *)
+Lemma abs_pending c k key : CInv c ->
+  (fst (abs c k key) = true <-> exists q, nth_error (heap c) q = Some (Cell k key Unset)).
+Proof.
+  intros HI. unfold abs; cbn [fst]. rewrite ahas_true. split; intros [q H]; exists q.
+  - apply (C_pend _ HI). exact H.
+  - apply (C_unset _ HI). exact H.
+Qed.
+Lemma abs_completed c k key : CInv c -> snd (abs c k key) = true ->
+  exists q v, afind key (used c k) = Some q /\ nth_error (heap c) q = Some (Cell k key (SetV v)).
+Proof.
+  intros HI. unfold abs; cbn [snd]. unfold ahas. destruct (afind key (used c k)) as [q|] eqn:E; [|discriminate].
+  intros _. destruct (C_used _ HI _ _ _ (afind_In _ _ _ E)) as [v Hv]. eauto.
+Qed.
+(* a promise id is in at most one map, under exactly one key *)
+Lemma pid_one_map c : CInv c -> forall q k1 key1 k2 key2,
+  (In (key1, q) (pend c k1) \/ In (key1, q) (used c k1)) -> (In (key2, q) (pend c k2) \/ In (key2, q) (used c k2)) ->
+  k1 = k2 /\ key1 = key2 /\ ~ (In (key1, q) (pend c k1) /\ In (key2, q) (used c k2)).
+Proof.
+  intros HI q k1 key1 k2 key2 H1 H2.
+  assert (E1 : exists st, nth_error (heap c) q = Some (Cell k1 key1 st)).
+  { destruct H1 as [H|H]; [eexists; apply (C_pend _ HI _ _ _ H)|destruct (C_used _ HI _ _ _ H) as [v Hv]; eauto]. }
+  assert (E2 : exists st, nth_error (heap c) q = Some (Cell k2 key2 st)).
+  { destruct H2 as [H|H]; [eexists; apply (C_pend _ HI _ _ _ H)|destruct (C_used _ HI _ _ _ H) as [v Hv]; eauto]. }
+  destruct E1 as [st1 E1], E2 as [st2 E2]. rewrite E1 in E2. inversion E2; subst.
+  repeat split; auto. intros [Ha Hb]. pose proof (C_pend _ HI _ _ _ Ha). destruct (C_used _ HI _ _ _ Hb). congruence.
+Qed.
+
+(* ====================================================================== *)
+(* the concurrent system                                                   *)
+(* ====================================================================== *)
+Definition pcof (ls : list loc) (u : nat) : pc :=
+  match nth_error ls u with Some l => at_ l | None => Idle end.
+Lemma pcof_upd ls t l l' u : nth_error ls t = Some l ->
+  pcof (upd ls t l') u = if Nat.eqb u t then at_ l' else pcof ls u.
+Proof.
+  intros H. unfold pcof. destruct (Nat.eqb_spec u t) as [->|Hne].
+  - rewrite (nth_upd_eq _ _ _ _ H). reflexivity.
+  - rewrite nth_upd_ne by auto. reflexivity.
+Qed.
+Lemma pcof_at ls t l : nth_error ls t = Some l -> pcof ls t = at_ l.
+Proof. intros H. unfold pcof. rewrite H. reflexivity. Qed.
+Arguments pcof : simpl never.
+
+Definition is_unlock (p : pc) : bool := match p with P_unlock _ _ => true | _ => false end.
+Definition is_lock (p : pc) : bool := match p with P_lock _ => true | _ => false end.
+
+(* what a client-side observation (no library call) returns *)
+Definition client_obs (o : op) (g : glob) (l : loc) : Z :=
+  match o with
+  | FutReady sl => fut_ready (heap (ct g)) (slot_of (slots l) sl)
+  | FutGet sl => fut_get (heap (ct g)) (slot_of (slots l) sl)
+  | _ => 0
+  end.
+Definition new_slots (o : op) (g : glob) (l : loc) : list (option nat) :=
+  match o with
+  | GetFuture _ _ sl => upd (slots l) sl (Some (length (heap (ct g))))
+  | _ => slots l
+  end.
+
+(* the three kinds of step *)
+Lemma tstep_inv t c g l g' l' es : tstep t c g l = Some (g', l', es) ->
+  (exists o r, at_ l = Idle /\ prog l = o :: r /\ g' = g /\ locks o = true /\
+     l' = Loc r (P_lock o) (slots l) /\ es = [E K_INVOKE 0 (opcode o)]) \/
+  (exists o r, at_ l = Idle /\ prog l = o :: r /\ g' = g /\ locks o = false /\
+     l' = Loc r Idle (slots l) /\ es = [E K_INVOKE 0 (opcode o); E K_RET 0 (client_obs o g l)]) \/
+  (exists o c' rv flt, at_ l = P_lock o /\ mtx g = None /\ apply o (ct g) = (c', rv, flt) /\
+     g' = Glob c' (Some t) (faulted g || flt) (hist g ++ [(t, o, rv)]) /\
+     l' = Loc (prog l) (P_unlock rv flt) (new_slots o g l) /\ es = [E K_LOCK O_MTX 0]) \/
+  (exists rv flt, at_ l = P_unlock rv flt /\ g' = Glob (ct g) None (faulted g) (hist g) /\
+     l' = Loc (prog l) Idle (slots l) /\
+     es = E K_UNLOCK O_MTX 0 :: (if flt then [E K_FAULT 0 1] else []) ++ [E K_RET 0 rv]).
+Proof.
+  intros Hs. destruct l as [pr p sl]. unfold tstep in Hs. cbn [at_ prog slots] in *. destruct p.
+  - destruct pr as [|o r]; [discriminate|].
+    destruct o; inversion Hs; subst;
+      try (left; eexists _, _; repeat split; reflexivity);
+      right; left; eexists _, _; repeat split; reflexivity.
+  - destruct (mtx g) eqn:Hm; [discriminate|].
+    destruct (apply o (ct g)) as [[c' rv] flt] eqn:Ha. inversion Hs; subst.
+    right; right; left. exists o, c', rv, flt. repeat split; auto.
+  - inversion Hs; subst. right; right; right. exists rv, flt. repeat split; auto.
+Qed.
+
+(* the history replayed through the sequential body `apply`, checking every logged return value *)
+Fixpoint replay (es : list (nat * op * Z)) (c : cont) : option cont :=
+  match es with
+  | [] => Some c
+  | (_, o, rv) :: r =>
+    let '(c', rv', flt) := apply o c in
+    if (rv =? rv') && negb flt then replay r c' else None
+  end.
+Lemma replay_app a : forall b c, replay (a ++ b) c = match replay a c with Some c' => replay b c' | None => None end.
+Proof.
+  induction a as [|[[t o] rv] r IH]; intros b c; cbn; [reflexivity|].
+  destruct (apply o c) as [[c' rv'] flt]. destruct ((rv =? rv') && negb flt); [apply IH|reflexivity].
+Qed.
+
+Record Inv (g : glob) (ls : list loc) : Prop := {
+  I_c : CInv (ct g);
+  I_nf : faulted g = false;
+  (* mutual exclusion: the threads inside a critical section are exactly the owner of promiseLock *)
+  I_owner : forall u, is_unlock (pcof ls u) = true -> mtx g = Some u;
+  I_held : forall a, mtx g = Some a -> is_unlock (pcof ls a) = true;
+  I_flt : forall u rv flt, pcof ls u = P_unlock rv flt -> flt = false;
+  (* every future a client holds refers to an existing promise *)
+  I_slots : forall u l i p, nth_error ls u = Some l -> nth_error (slots l) i = Some (Some p) ->
+            (p < length (heap (ct g)))%nat;
+  (* the container is the result of the critical sections executed one after the other *)
+  I_hist : replay (hist g) cont0 = Some (ct g)
+}.
+
+Lemma Inv_init ns progs : Inv (gl (init ns progs)) (thr (init ns progs)).
+Proof.
+  assert (P : forall u, pcof (map (fun p => Loc p Idle (repeat None ns)) progs) u = Idle).
+  { intros u. unfold pcof. rewrite nth_error_map. destruct (nth_error progs u); reflexivity. }
+  unfold init; cbn. constructor; cbn; intros; rewrite ?P in *; try discriminate; auto.
+  - apply CInv_init.
+  - exfalso. rewrite nth_error_map in H. destruct (nth_error progs u); [|discriminate]. inversion H; subst.
+    cbn in H0. apply nth_error_In in H0. apply repeat_spec in H0. discriminate.
+Qed.
+
+Lemma drop_length q h : length (drop q h) = length h.
+Proof. destruct (drop_spec q h) as [[k [key [_ [_ [E _]]]]]|[_ E]]; [exact E|rewrite E; reflexivity]. Qed.
+Lemma get_length c k key sl c' rv flt : apply (GetFuture k key sl) c = (c', rv, flt) ->
+  length (heap c') = S (length (heap c)).
+Proof.
+  cbn [apply]. intros H; inversion H; subst. cbn [heap].
+  destruct (afind key (pend c k)); cbn [drop_opt]; rewrite ?drop_length, app_length; cbn; lia.
+Qed.
+
+Lemma Inv_step : forall g ls t c l g' l' es,
+  Inv g ls -> nth_error ls t = Some l -> tstep t c g l = Some (g', l', es) -> Inv g' (upd ls t l').
+Proof.
+  intros g ls t c l g' l' es HI Hl Hs.
+  pose proof (pcof_at _ _ _ Hl) as Hp.
+  destruct HI as [HC HNF HO HH HF HSL HR].
+  assert (Hslots_same : forall g0, (length (heap (ct g)) <= length (heap (ct g0)))%nat -> slots l' = slots l ->
+    forall u l0 i p, nth_error (upd ls t l') u = Some l0 -> nth_error (slots l0) i = Some (Some p) ->
+      (p < length (heap (ct g0)))%nat).
+  { intros g0 Hle Hsame u l0 i p Hu Hi. destruct (nth_upd _ _ _ _ _ Hu) as [[-> [-> _]]|[_ Hu']].
+    - rewrite Hsame in Hi. specialize (HSL _ _ _ _ Hl Hi). lia.
+    - specialize (HSL _ _ _ _ Hu' Hi). lia. }
+  destruct (tstep_inv _ _ _ _ _ _ _ Hs) as [[o [r [Ha [Hpr [-> [Hlk [-> ->]]]]]]]|[[o [r [Ha [Hpr [-> [Hlk [-> ->]]]]]]]|
+    [[o [c' [rv [flt [Ha [Hm [Hap [-> [-> ->]]]]]]]]]|[rv [flt [Ha [-> [-> ->]]]]]]]].
+  - (* invoke of a locking method *)
+    constructor; auto.
+    + intros u; rewrite (pcof_upd _ _ _ _ _ Hl); cbn [at_]. destruct (Nat.eqb_spec u t); [discriminate|apply HO].
+    + intros a Hma. rewrite (pcof_upd _ _ _ _ _ Hl); cbn [at_]. destruct (Nat.eqb_spec a t) as [->|]; [|apply HH; exact Hma].
+      specialize (HH _ Hma). rewrite Hp, Ha in HH. discriminate.
+    + intros u rv flt; rewrite (pcof_upd _ _ _ _ _ Hl); cbn [at_]. destruct (Nat.eqb_spec u t); [discriminate|apply HF].
+    + apply (Hslots_same g); auto.
+  - (* a client-side observation *)
+    constructor; auto.
+    + intros u; rewrite (pcof_upd _ _ _ _ _ Hl); cbn [at_]. destruct (Nat.eqb_spec u t); [discriminate|apply HO].
+    + intros a Hma. rewrite (pcof_upd _ _ _ _ _ Hl); cbn [at_]. destruct (Nat.eqb_spec a t) as [->|]; [|apply HH; exact Hma].
+      specialize (HH _ Hma). rewrite Hp, Ha in HH. discriminate.
+    + intros u rv flt; rewrite (pcof_upd _ _ _ _ _ Hl); cbn [at_]. destruct (Nat.eqb_spec u t); [discriminate|apply HF].
+    + apply (Hslots_same g); auto.
+  - (* lock + body *)
+    destruct (apply_CInv _ _ _ _ _ HC Hap) as [HC' ->].
+    pose proof (hle_length _ _ (apply_hle _ _ _ _ _ Hap)) as Hlen.
+    constructor; cbn [ct mtx faulted hist].
+    + exact HC'.
+    + rewrite HNF. reflexivity.
+    + intros u; rewrite (pcof_upd _ _ _ _ _ Hl); cbn [at_]. destruct (Nat.eqb_spec u t) as [->|]; [reflexivity|].
+      intros Hu. specialize (HO _ Hu). congruence.
+    + intros a Hma. inversion Hma; subst. rewrite (pcof_upd _ _ _ _ _ Hl), Nat.eqb_refl. reflexivity.
+    + intros u rv0 flt0; rewrite (pcof_upd _ _ _ _ _ Hl); cbn [at_]. destruct (Nat.eqb_spec u t); [|apply HF].
+      intros E; inversion E; reflexivity.
+    + intros u l0 i p Hu Hi. destruct (nth_upd _ _ _ _ _ Hu) as [[-> [-> _]]|[_ Hu']].
+      * cbn [slots] in Hi. unfold new_slots in Hi. destruct o; try (specialize (HSL _ _ _ _ Hl Hi); cbn [ct]; lia).
+        rewrite (get_length _ _ _ _ _ _ _ Hap). cbn [ct].
+        destruct (nth_upd _ _ _ _ _ Hi) as [[_ [E _]]|[_ Hi']]; [inversion E; lia|].
+        specialize (HSL _ _ _ _ Hl Hi'). lia.
+      * specialize (HSL _ _ _ _ Hu' Hi). cbn [ct]. lia.
+    + rewrite replay_app, HR. cbn [replay]. rewrite Hap, Z.eqb_refl. reflexivity.
+  - (* unlock + return *)
+    pose proof (HO t) as HOt. rewrite Hp, Ha in HOt. specialize (HOt eq_refl).
+    constructor; cbn [ct mtx faulted hist]; auto.
+    + intros u; rewrite (pcof_upd _ _ _ _ _ Hl); cbn [at_]. destruct (Nat.eqb_spec u t) as [->|Hne]; [discriminate|].
+      intros Hu. specialize (HO _ Hu). congruence.
+    + intros a Hma. discriminate.
+    + intros u rv0 flt0; rewrite (pcof_upd _ _ _ _ _ Hl); cbn [at_]. destruct (Nat.eqb_spec u t); [discriminate|apply HF].
+    + apply (Hslots_same (Glob (ct g) None (faulted g) (hist g))); auto.
+Qed.
+
+(* ---------- reachable states ---------- *)
+Definition R (ns : nat) (progs : list (list op)) (s : sysD) : Prop := reachable glob loc tstep (init ns progs) s.
+
+Lemma R_inv ns progs s : R ns progs s -> Inv (gl s) (thr s).
+Proof. intros H. eapply reachable_inv; [apply Inv_step|apply Inv_init|exact H]. Qed.
+Lemma R_step ns progs s tc : R ns progs s -> R ns progs (stepD s tc).
+Proof. apply reachable_step. Qed.
+
+(* ---------- do_never_twice ---------- *)
+Lemma never_twice ns progs s : R ns progs s -> faulted (gl s) = false /\ CInv (ct (gl s)).
+Proof. intros HR. pose proof (R_inv _ _ _ HR) as HI. split; [apply (I_nf _ _ HI)|apply (I_c _ _ HI)]. Qed.
+
+Definition fault_ev : ev := E K_FAULT 0 1.
+Lemma no_fault_event ns progs s t c l g' l' es :
+  R ns progs s -> nth_error (thr s) t = Some l -> tstep t c (gl s) l = Some (g', l', es) -> ~ In fault_ev es.
+Proof.
+  intros HR Hl Hs Hin. pose proof (R_inv _ _ _ HR) as HI.
+  destruct (tstep_inv _ _ _ _ _ _ _ Hs) as [[o [r [Ha [Hpr [-> [Hlk [-> ->]]]]]]]|[[o [r [Ha [Hpr [-> [Hlk [-> ->]]]]]]]|
+    [[o [c' [rv [flt [Ha [Hm [Hap [-> [-> ->]]]]]]]]]|[rv [flt [Ha [-> [-> ->]]]]]]]].
+  - cbn in Hin. destruct Hin as [E|[]]. discriminate.
+  - cbn in Hin. destruct Hin as [E|[E|[]]]; discriminate.
+  - cbn in Hin. destruct Hin as [E|[]]. discriminate.
+  - pose proof (I_flt _ _ HI t rv flt) as Hf. rewrite (pcof_at _ _ _ Hl) in Hf. specialize (Hf Ha). subst flt.
+    cbn in Hin. destruct Hin as [E|[E|[]]]; discriminate.
+Qed.
+
+(* ---------- do_stable: a satisfied (or broken) promise never changes again ---------- *)
+Lemma step_hle (s : sysD) tc : hle (heap (ct (gl s))) (heap (ct (gl (stepD s tc)))).
+Proof.
+  unfold step, sys_step. destruct tc as [t c].
+  destruct (nth_error (thr s) t) as [l|] eqn:Hl; [|apply hle_refl].
+  destruct (tstep t c (gl s) l) as [[[g' l'] es]|] eqn:Hs; [|apply hle_refl]. cbn [fst gl].
+  destruct (tstep_inv _ _ _ _ _ _ _ Hs) as [[o [r [Ha [Hpr [-> _]]]]]|[[o [r [Ha [Hpr [-> _]]]]]|
+    [[o [c' [rv [flt [Ha [Hm [Hap [-> _]]]]]]]]|[rv [flt [Ha [-> _]]]]]]]; cbn [ct]; try apply hle_refl.
+  eapply apply_hle; eauto.
+Qed.
+Lemma run_hle sched : forall s : sysD, hle (heap (ct (gl s))) (heap (ct (gl (runD s sched)))).
+Proof.
+  apply (run_rel glob loc tstep (fun a b => hle (heap (ct (gl a))) (heap (ct (gl b))))).
+  - intros; apply hle_refl.
+  - intros a b c0; apply hle_trans.
+  - apply step_hle.
+Qed.
+Lemma stable (s s' : sysD) q k key st :
+  reachable glob loc tstep s s' -> nth_error (heap (ct (gl s))) q = Some (Cell k key st) -> st <> Unset ->
+  nth_error (heap (ct (gl s'))) q = Some (Cell k key st).
+Proof.
+  intros [sc ->] Hq Hne. destruct (run_hle sc s _ _ _ _ Hq) as [st' [E F]]. rewrite (F Hne) in E. exact E.
+Qed.
+(* a client keeps seeing the same thing in a future once it was ready *)
+Lemma stable_get (s s' : sysD) p : reachable glob loc tstep s s' ->
+  fut_ready (heap (ct (gl s))) (Some p) = 1 ->
+  fut_ready (heap (ct (gl s'))) (Some p) = 1 /\
+  fut_get (heap (ct (gl s'))) (Some p) = fut_get (heap (ct (gl s))) (Some p).
+Proof.
+  intros Hr H1. cbn [fut_get fut_ready] in *.
+  destruct (nth_error (heap (ct (gl s))) p) as [[k key st]|] eqn:E; [|discriminate].
+  destruct st; [discriminate| |]; rewrite (stable s s' _ _ _ _ Hr E); try discriminate; auto.
+Qed.
+
+(* ---------- the value a future gets ---------- *)
+Lemma set_wins ns progs s t c l g' l' es mv k key v q :
+  R ns progs s -> nth_error (thr s) t = Some l -> at_ l = P_lock (SetValue mv k key v) ->
+  tstep t c (gl s) l = Some (g', l', es) -> afind key (pend (ct (gl s)) k) = Some q ->
+  nth_error (heap (ct (gl s))) q = Some (Cell k key Unset) /\
+  nth_error (heap (ct g')) q = Some (Cell k key (SetV v)) /\
+  (forall q', q' <> q -> nth_error (heap (ct g')) q' = nth_error (heap (ct (gl s))) q') /\
+  at_ l' = P_unlock 0 false.
+Proof.
+  intros HR Hl Ha Hs Hf. pose proof (I_c _ _ (R_inv _ _ _ HR)) as HC.
+  destruct (apply_set_pending _ mv _ _ v _ HC Hf) as [c' [Hap [H1 [H2 H3]]]].
+  destruct (tstep_inv _ _ _ _ _ _ _ Hs) as [[o [r [Ha' _]]]|[[o [r [Ha' _]]]|
+    [[o [c'' [rv [flt [Ha' [Hm [Hap' [-> [-> ->]]]]]]]]]|[rv [flt [Ha' _]]]]]]; try congruence.
+  rewrite Ha in Ha'. inversion Ha'; subst o. rewrite Hap in Hap'. inversion Hap'; subst. cbn [ct at_]. auto.
+Qed.
+Lemma set_noop ns progs s t c l g' l' es mv k key v :
+  R ns progs s -> nth_error (thr s) t = Some l -> at_ l = P_lock (SetValue mv k key v) ->
+  tstep t c (gl s) l = Some (g', l', es) -> ahas key (pend (ct (gl s)) k) = false ->
+  ct g' = ct (gl s) /\ at_ l' = P_unlock 0 false.
+Proof.
+  intros HR Hl Ha Hs Hf.
+  assert (Hn : afind key (pend (ct (gl s)) k) = None) by (unfold ahas in Hf; destruct (afind key (pend (ct (gl s)) k)); [discriminate|reflexivity]).
+  destruct (tstep_inv _ _ _ _ _ _ _ Hs) as [[o [r [Ha' _]]]|[[o [r [Ha' _]]]|
+    [[o [c'' [rv [flt [Ha' [Hm [Hap' [-> [-> ->]]]]]]]]]|[rv [flt [Ha' _]]]]]]; try congruence.
+  rewrite Ha in Ha'. inversion Ha'; subst o. rewrite (apply_set_noop _ mv _ _ v Hn) in Hap'. inversion Hap'; subst. cbn [ct at_]. auto.
+Qed.
+Lemma fulfill_all ns progs s t c l g' l' es v :
+  R ns progs s -> nth_error (thr s) t = Some l -> at_ l = P_lock (FulfillAll v) ->
+  tstep t c (gl s) l = Some (g', l', es) ->
+  length (heap (ct g')) = length (heap (ct (gl s))) /\ (forall k, pend (ct g') k = []) /\
+  (forall q k key st, nth_error (heap (ct (gl s))) q = Some (Cell k key st) ->
+     nth_error (heap (ct g')) q = Some (Cell k key (settle v st))).
+Proof.
+  intros HR Hl Ha Hs. pose proof (I_c _ _ (R_inv _ _ _ HR)) as HC.
+  destruct (apply_fulfill _ v HC) as [c' [Hap H]].
+  destruct (tstep_inv _ _ _ _ _ _ _ Hs) as [[o [r [Ha' _]]]|[[o [r [Ha' _]]]|
+    [[o [c'' [rv [flt [Ha' [Hm [Hap' [-> [-> ->]]]]]]]]]|[rv [flt [Ha' _]]]]]]; try congruence.
+  rewrite Ha in Ha'. inversion Ha'; subst o. rewrite Hap in Hap'. inversion Hap'; subst. cbn [ct]. exact H.
+Qed.
+
+(* ---------- destruction: do_never_hangs, do_fulfilled_once ---------- *)
+Definition requested_once (h : heap_t) (q : nat) (k : bool) (key : Z) : Prop :=
+  forall q' st', nth_error h q' = Some (Cell k key st') -> q' = q.
+
+Lemma destroyed ns progs s : R ns progs s ->
+  exists h', destroy (ct (gl s)) = Some h' /\ length h' = length (heap (ct (gl s))) /\
+    (forall q k key st, nth_error (heap (ct (gl s))) q = Some (Cell k key st) ->
+       nth_error h' q = Some (Cell k key (settle 0 st))).
+Proof. intros HR. apply destroy_spec. apply (I_c _ _ (R_inv _ _ _ HR)). Qed.
+
+Lemma never_hangs ns progs s h' : R ns progs s -> destroy (ct (gl s)) = Some h' ->
+  (forall q x, nth_error h' q = Some x -> cst x <> Unset) /\
+  (forall u l i p, nth_error (thr s) u = Some l -> nth_error (slots l) i = Some (Some p) ->
+     fut_ready h' (Some p) = 1).
+Proof.
+  intros HR Hd. destruct (destroyed _ _ _ HR) as [h'' [Hd' [Hlen Hcell]]]. rewrite Hd in Hd'. inversion Hd'; subst h''.
+  assert (Hno : forall q x, nth_error h' q = Some x -> cst x <> Unset).
+  { intros q x Hq. destruct (nth_error (heap (ct (gl s))) q) as [[k key st]|] eqn:E.
+    - rewrite (Hcell _ _ _ _ E) in Hq. inversion Hq; subst. cbn. destruct st; discriminate.
+    - apply nth_error_None in E. assert (q < length h')%nat by (apply nth_error_Some; congruence). lia. }
+  split; [exact Hno|]. intros u l i p Hu Hi.
+  pose proof (I_slots _ _ (R_inv _ _ _ HR) _ _ _ _ Hu Hi) as Hp.
+  cbn [fut_ready]. destruct (nth_error h' p) as [[k key st]|] eqn:E.
+  - specialize (Hno _ _ E). cbn in Hno. destruct st; congruence.
+  - apply nth_error_None in E. lia.
+Qed.
+
+(* a key requested once: its future ends with a value - the one it already had, else X{} = 0 *)
+Lemma fulfilled_once ns progs s h' q k key st :
+  R ns progs s -> destroy (ct (gl s)) = Some h' ->
+  nth_error (heap (ct (gl s))) q = Some (Cell k key st) -> requested_once (heap (ct (gl s))) q k key ->
+  st <> Broken /\ exists v, nth_error h' q = Some (Cell k key (SetV v)) /\ (st = SetV v \/ (st = Unset /\ v = 0)).
+Proof.
+  intros HR Hd Hq Honce. destruct (destroyed _ _ _ HR) as [h'' [Hd' [Hlen Hcell]]]. rewrite Hd in Hd'. inversion Hd'; subst h''.
+  assert (Hnb : st <> Broken).
+  { intros ->. destruct (C_broken _ (I_c _ _ (R_inv _ _ _ HR)) _ _ _ Hq) as [q' [st' [Hlt Hq']]].
+    specialize (Honce _ _ Hq'). lia. }
+  split; [exact Hnb|]. specialize (Hcell _ _ _ _ Hq). destruct st; cbn [settle] in Hcell.
+  - exists 0. auto.
+  - exists v. auto.
+  - congruence.
+Qed.
+(* the converse reading of C_broken: a promise is only ever broken by a later request of the same key *)
+Lemma broken_only_by_rerequest ns progs s q k key :
+  R ns progs s -> nth_error (heap (ct (gl s))) q = Some (Cell k key Broken) ->
+  exists q' st, (q < q')%nat /\ nth_error (heap (ct (gl s))) q' = Some (Cell k key st).
+Proof. intros HR. apply (C_broken _ (I_c _ _ (R_inv _ _ _ HR))). Qed.
